@@ -6,6 +6,7 @@ import Octo.Model.Trojan
 import Octo.Model.Socks5
 import Octo.Model.SsUdp
 import Octo.Model.Config
+import Octo.Model.Handshake
 import Octo.Spec.Wire
 import Octo.Crypto.Real
 import Std.Data.HashMap
@@ -427,6 +428,28 @@ def step (st : St) (toks : List String) : St × String :=
         let tsOk := ¬ o.ctx.kind.is2022 ∨ (now ≤ rnd.now + 1 ∧ rnd.now ≤ now + 1)
         (st, (if tsOk then "" else "bad-ts ") ++ hexOrDash (SsUdp.encode C o.ctx .server ⟨csid, ssid, pid, user⟩ a p rnd))
     | _, _, _, _, _, _ => (st, "bad-op")
+  | ["hs.http", m, p] =>
+    match unhexOrDash m, unhexOrDash p with
+    | some mb, some pb =>
+      (st, match Hs.recognizeHttp mb pb with
+        | some (.http h port) => s!"ok http {hexOrDash h} {port}"
+        | some (.https h port) => s!"ok https {hexOrDash h} {port}"
+        | none => "err")
+    | _, _ => (st, "bad-op")
+  | "hs.run" :: kind :: segs :: rest =>
+    let segments := (segs.splitOn ";").filterMap unhexOrDash
+    let marker := ((kv rest "marker").bind unhexOrDash).getD []
+    let zero : Addr := .v4 [0, 0, 0, 0] 0
+    let out : Hs.Outcome :=
+      if kind == "socks5" then
+        let split := ((kv rest "split").bind String.toNat?).getD segments.length
+        Hs.socks5Handshake (segments.take split).flatten (segments.drop split).flatten zero
+      else Hs.httpHandshake segments.flatten
+    let all := segments.flatten
+    (st, match out with
+      | .tunnel a consumed reply => s!"ok {showAddr a} reply={hexOrDash reply} rest={hexOrDash (all.drop consumed ++ marker)}"
+      | .refused reply => s!"refused reply={hexOrDash reply} rest=-"
+      | .wait => "wait reply=- rest=-")
   | ["cfg.cipher", h] =>
     match (unhexOrDash h).bind (fun b => String.fromUTF8? (ByteArray.mk b.toArray)) with
     | some name =>
